@@ -91,8 +91,11 @@ type Exec struct {
 	maxAllocReq   int64
 	clock         int
 	exitCode      *int
+	exitExpect    *int
+	atExit        Value
 	schedState    *sched
 	floatCalls    []floatCall
+	observes      []observation
 	lenient       int
 	mutexes       map[*Value]*mutexState
 	conds         map[*Value]*condState
@@ -101,8 +104,26 @@ type Exec struct {
 	atomicOps     int
 }
 
+type Witness struct {
+	Replay   []ndEvent    `json:"nondet"`
+	Observes []ObserveRec `json:"observes"`
+}
+
+type ObserveRec struct {
+	Tag   string `json:"tag"`
+	Hex   string `json:"hex"`
+	Exact bool   `json:"exact"`
+}
+
+type observation struct {
+	tag string
+	b   []*Term
+}
+
 type HarnessRun struct {
 	Name        string
+	Pkg         string
+	Witnesses   []Witness
 	fn          *ssa.Function
 	Paths       int
 	Completed   int
@@ -436,7 +457,7 @@ func (x *Exec) backtrack() bool {
 }
 
 func (eng *Engine) RunHarness(fn *ssa.Function) *HarnessRun {
-	h := &HarnessRun{Name: fn.Name(), fn: fn, Aborted: map[string]int{}, Reached: map[string]int{},
+	h := &HarnessRun{Name: fn.Name(), Pkg: fn.Pkg.Pkg.Path(), fn: fn, Aborted: map[string]int{}, Reached: map[string]int{},
 		Funcs: map[string]int{}, Stubs: map[string]int{}, vioKeys: map[string]bool{}}
 	t0 := time.Now()
 	f := NewTermFactory()
@@ -501,9 +522,12 @@ func (x *Exec) runPath(fn *ssa.Function) {
 	x.allocBytes, x.maxAllocReq = 0, 0
 	x.clock = 0
 	x.exitCode = nil
+	x.exitExpect = nil
+	x.atExit = nil
 	x.threads = nil
 	x.schedState = nil
 	x.floatCalls = nil
+	x.observes = nil
 	x.mutexes = map[*Value]*mutexState{}
 	x.conds = map[*Value]*condState{}
 	x.wgs = map[*Value]int{}
@@ -549,6 +573,9 @@ func (x *Exec) runPath(fn *ssa.Function) {
 		if len(x.h.Samples) < 3 {
 			x.h.Samples = append(x.h.Samples, x.sample())
 		}
+		if len(x.h.Witnesses) < x.eng.cfg.Witnesses && (x.h.Completed <= 2 || x.h.Completed%7 == 0) {
+			x.addWitness()
+		}
 	}
 }
 
@@ -590,4 +617,48 @@ func (x *Exec) sample() map[string]interface{} {
 
 func (x *Exec) expectPanic() bool {
 	return x.reached["__expect_panic__"]
+}
+
+// addWitness stores a concrete input vector for the just-completed path (a model of its path
+// condition) together with the model values of every Observe()d buffer; the check replays it
+// natively and compares (translator validation).
+func (x *Exec) addWitness() {
+	r := x.s.CheckPoison(x.s.Check())
+	if r != Sat {
+		return
+	}
+	w := Witness{Replay: x.modelReplay()}
+	for _, o := range x.observes {
+		rec := ObserveRec{Tag: o.tag, Exact: true}
+		var sb strings.Builder
+		for _, t := range o.b {
+			if hasUF(t, map[int]bool{}) {
+				rec.Exact = false
+			}
+			v, ok := x.s.Eval(t)
+			if !ok {
+				rec.Exact = false
+			}
+			fmt.Fprintf(&sb, "%02x", v&0xff)
+		}
+		rec.Hex = sb.String()
+		w.Observes = append(w.Observes, rec)
+	}
+	x.h.Witnesses = append(x.h.Witnesses, w)
+}
+
+func hasUF(t *Term, seen map[int]bool) bool {
+	if seen[t.id] {
+		return false
+	}
+	seen[t.id] = true
+	if t.op == OpUF {
+		return true
+	}
+	for _, a := range t.args {
+		if hasUF(a, seen) {
+			return true
+		}
+	}
+	return false
 }
